@@ -200,8 +200,8 @@ func setupC12(env *simEnv) {
 			rd.violate("C12/version-not-checked/undamaged", fmt.Sprintf("undamaged stream saved under version %d loaded under version %d: err=%v (want VersionMismatch)", version, alt, res.err))
 		}
 		judge("undamaged", false, true, res)
-		simrt.ProbeN("c12.stream-bytes", len(stream))
-		simrt.ProbeN("c12.saved-entries", len(saved))
+		probeN("c12.stream-bytes", len(stream))
+		probeN("c12.saved-entries", len(saved))
 
 		L := len(stream)
 		// 1. crash during save: every truncation offset
@@ -211,7 +211,7 @@ func setupC12(env *simEnv) {
 				judge("truncated", true, true, load(stream[:n], alt, 0, -1))
 			}
 		}
-		simrt.ProbeN("c12.truncations", L)
+		probeN("c12.truncations", L)
 		// reader fails at offset n (the bytes are intact, the device is not)
 		for n := 0; n < L; n += 3 {
 			r := load(stream, version, 16, n)
@@ -259,7 +259,7 @@ func setupC12(env *simEnv) {
 				}
 			}
 		}
-		simrt.ProbeN("c12.bit-flips", 8*L)
+		probeN("c12.bit-flips", 8*L)
 		// single-byte overwrites
 		for i := 0; i < L; i++ {
 			for _, nv := range []byte{0x00, 0xff, byte(simrt.MiscRng().Intn(256))} {
@@ -271,7 +271,7 @@ func setupC12(env *simEnv) {
 				judge("byte-overwrite", false, false, load(buf, version, 0, -1))
 			}
 		}
-		simrt.ProbeN("c12.byte-overwrites", 3*L)
+		probeN("c12.byte-overwrites", 3*L)
 		// multi-byte damage
 		nmulti := 300
 		for i := 0; i < nmulti; i++ {
@@ -286,7 +286,7 @@ func setupC12(env *simEnv) {
 				judge("multi-byte", false, true, load(buf, alt, 0, -1))
 			}
 		}
-		simrt.ProbeN("c12.multi-byte", nmulti)
+		probeN("c12.multi-byte", nmulti)
 		// 3. segment-level edits at the writer's call boundaries: drop, duplicate, swap
 		segs := [][]byte{}
 		prev := 0
@@ -332,8 +332,8 @@ func setupC12(env *simEnv) {
 				edit("segments-swapped", idx)
 			}
 		}
-		simrt.ProbeN("c12.segment-edits", edits)
-		simrt.ProbeN("c12.segments", ns)
+		probeN("c12.segment-edits", edits)
+		probeN("c12.segments", ns)
 		rd.Evals = evals
 		rd.Nontrivial = 1
 		rd.Extra = map[string]any{"stream_bytes": L, "segments": ns, "saved_entries": len(saved), "loads": evals}
